@@ -979,6 +979,17 @@ def solve(objfun, x0, h=None, lh=None, prox_uh=None, argsf=(), argsh=(), argspro
         xl = -1e20 * np.ones((n,))  # unconstrained
     if xu is None:
         xu = 1e20 * np.ones((n,))  # unconstrained
+    # Check the bounds as the user gave them, before projections replace them by +-1e20 and scaling maps them to [0, 1]
+    # (either would hide a wrong shape, a reversed pair or a zero gap, or fail on them before the input checks below)
+    bounds_error = None
+    if np.shape(xl) != (n,):
+        bounds_error = "lower bounds must have same shape as x0"
+    elif np.shape(xu) != (n,):
+        bounds_error = "upper bounds must have same shape as x0"
+    elif np.min(xu - xl) <= 0.0:
+        bounds_error = "upper bounds must be strictly greater than lower bounds"
+    if bounds_error is not None:  # carry on with harmless values until the input checks report the error
+        xl, xu, scaling_within_bounds = -1e20 * np.ones((n,)), 1e20 * np.ones((n,)), False
     if npt is None:
         npt = n + 1
     if rhobeg is None:
@@ -1052,6 +1063,9 @@ def solve(objfun, x0, h=None, lh=None, prox_uh=None, argsf=(), argsh=(), argspro
 
     if exit_info is None and np.shape(x0) != (n,):
         exit_info = ExitInformation(EXIT_INPUT_ERROR, "x0 must be a vector")
+
+    if exit_info is None and bounds_error is not None:
+        exit_info = ExitInformation(EXIT_INPUT_ERROR, bounds_error)
 
     if exit_info is None and np.shape(x0) != np.shape(xl):
         exit_info = ExitInformation(EXIT_INPUT_ERROR, "lower bounds must have same shape as x0")
